@@ -619,4 +619,182 @@ theorem itrWalk_spec (P : Params κ) (hP : P.Good) (dec : Nat → κ → Nat →
           { this with visits := fun e => by rw [this.visits e, h6 e] }
         exact hpost _ hw
 
+/-! ## `m_map_clear` -/
+
+theorem has_key_unique (P : Params κ) (c : List (Cell κ)) (h : TWF P c) (k : κ) (v w : Nat)
+    (h1 : Has c (k, v)) (h2 : Has c (k, w)) : v = w := by
+  obtain ⟨i, hi, hsi⟩ := h1
+  obtain ⟨j, hj, hsj⟩ := h2
+  have := h.uniq i j k v w hi hj hsi hsj
+  subst this
+  rw [hsi] at hsj; cases hsj; rfl
+
+theorem occ_zero_of_no_entries (c : List (Cell κ)) (h : ∀ e, ¬ Has c e) : occ c = 0 := by
+  unfold occ
+  cases hc : c.filterMap id with
+  | nil => rfl
+  | cons e _ => exact absurd ((has_iff_mem c e).mpr (by rw [hc]; simp)) (h e)
+
+structure ClearPost (P : Params κ) (m : Map κ) (r : Map κ × List (Ev κ)) : Prop where
+  wf : WF P r.1
+  flags : SameFlags m r.1
+  size : r.1.size = m.size
+  len : r.1.length = 0
+  empty : ∀ e, ¬ Has r.1.cells e
+  evs : ∃ order : List (κ × Nat), r.2 = order.flatMap (remEvs m) ∧ (order.map (·.1)).Nodup ∧
+    ∀ e, e ∈ order ↔ Has m.cells e
+
+theorem clearLoop_spec (P : Params κ) (hP : P.Good) :
+    ∀ (fuel : Nat) (m : Map κ) (it : Itr), ItrOk P m it → it.removed = false → m.length < fuel →
+      (∀ e, InWin m.cells it.pos it.stop e ↔ Has m.cells e) →
+      ClearPost P m (clearLoop P fuel m (some it)) := by
+  intro fuel
+  induction fuel with
+  | zero => intro m it _ _ hf; omega
+  | succ fuel ih =>
+    intro m it hok hnr hf hall
+    have hn : 0 < m.cells.length := by have := hok.scan.wf.size.pos hP; unfold Map.size at this; omega
+    obtain ⟨⟨k, v⟩, hs⟩ := hok.occupied hnr
+    rw [clearLoop]
+    have hrem : itrRemove P m it = ((clearElem P m it.pos).1, (clearElem P m it.pos).2, { it with removed := true }, 0) := by
+      unfold itrRemove; rw [hnr]; rfl
+    rw [hrem]
+    simp only
+    obtain ⟨g1, g2, g3, g4, g5, g6, g7⟩ := rm_step P hP m it.pos it.stop hok.scan hok.lt k v hs
+    have hok1 : ItrOk P (clearElem P m it.pos).1 { it with removed := true } := ⟨g1, hok.lt, fun h => by cases h⟩
+    have hhas : Has m.cells (k, v) := ⟨it.pos % m.cells.length, Nat.mod_lt _ hn, by rw [slot_mod]; exact hs⟩
+    -- what is left after the removal is what is left in the window
+    have hall1 : ∀ e, InWin (clearElem P m it.pos).1.cells it.pos it.stop e ↔ Has (clearElem P m it.pos).1.cells e := by
+      intro e
+      rw [g7 e, g6 e, ← hall e, inWin_step_some m.cells it.pos it.stop hok.lt (k, v) hs e]
+      constructor
+      · intro h
+        have hne : e.1 ≠ k := by
+          obtain ⟨q, hq1, hq2, hq3⟩ := h
+          intro hek
+          obtain ⟨k', w⟩ := e
+          simp only at hek; subst hek
+          have := hok.scan.wf.tbl.uniq (q % m.cells.length) (it.pos % m.cells.length) k' w v (Nat.mod_lt _ hn)
+            (Nat.mod_lt _ hn) (by rw [slot_mod]; exact hq3) (by rw [slot_mod]; exact hs)
+          have hlo := hok.scan.lo; unfold Map.size at hlo
+          exact mod_ne_of_lt m.cells.length it.pos q (by omega) (by omega) this.symm
+        exact ⟨Or.inr h, hne⟩
+      · rintro ⟨h | h, hne⟩
+        · subst h; exact absurd rfl hne
+        · exact h
+    have hmem : ∀ e, (e = (k, v) ∨ Has (clearElem P m it.pos).1.cells e) ↔ Has m.cells e := by
+      intro e
+      rw [g6 e]
+      constructor
+      · rintro (h | h)
+        · subst h; exact hhas
+        · exact h.1
+      · intro h
+        by_cases hek : e.1 = k
+        · left
+          obtain ⟨k', w⟩ := e
+          simp only at hek; subst hek
+          rw [has_key_unique P m.cells hok.scan.wf.tbl k' w v h hhas]
+        · right; exact ⟨h, hek⟩
+    rcases itrNext_spec P _ _ hok1 with ⟨h1, h2⟩ | ⟨it', h1, h2, h3, h4, h5, h6⟩
+    · rw [h1]
+      have hempty : ∀ e, ¬ Has (clearElem P m it.pos).1.cells e := by
+        intro e he
+        exact h2 e (by simpa using (hall1 e).mpr he)
+      have hcl : clearLoop P fuel (clearElem P m it.pos).1 none = ((clearElem P m it.pos).1, []) := by
+        cases fuel <;> rfl
+      rw [hcl]
+      refine ⟨g1.wf, g2, g3, ?_, hempty, [(k, v)], by simp [g5], by simp, ?_⟩
+      · rw [g1.wf.len]; exact occ_zero_of_no_entries _ hempty
+      · intro e
+        rw [← hmem e]
+        simp only [List.mem_singleton]
+        constructor
+        · exact Or.inl
+        · rintro (h | h)
+          · exact h
+          · exact absurd h (hempty e)
+    · rw [h1]
+      have h4' : it'.stop = it.stop := h4
+      simp only [if_true] at h6
+      have := ih (clearElem P m it.pos).1 it' h2 h3 (by omega) (by
+        intro e; rw [h4', h6 e]; exact hall1 e)
+      obtain ⟨order, ho1, ho2, ho3⟩ := this.evs
+      refine ⟨this.wf, g2.trans this.flags, by rw [this.size, g3], this.len, this.empty, (k, v) :: order, ?_, ?_, ?_⟩
+      · simp only
+        rw [ho1, List.flatMap_cons, flatMap_remEvs_congr g2, g5]
+      · simp only [List.map_cons, List.nodup_cons]
+        refine ⟨?_, ho2⟩
+        intro hmem'
+        obtain ⟨e, he, hek⟩ := List.mem_map.mp hmem'
+        exact ((g6 e).mp ((ho3 e).mp he)).2 hek
+      · intro e
+        simp only [List.mem_cons]
+        rw [ho3 e]
+        exact hmem e
+
+/-- `m_map_clear` empties the map and releases every entry exactly once -/
+theorem clear_spec (P : Params κ) (hP : P.Good) (m : Map κ) (hwf : WF P m) : ClearPost P m (clear P m) := by
+  unfold clear
+  rcases itrNew_spec P m hwf with ⟨h0, h1⟩ | ⟨h0, it, h1, h2, h3, h4⟩
+  · rw [h1]
+    have : clearLoop P (m.length + 1) m none = (m, []) := rfl
+    rw [this]
+    have hempty := no_entries_of_length_zero P m hwf h0
+    exact ⟨hwf, SameFlags.refl m, rfl, h0, hempty, [], rfl, by simp, fun e => by simpa using hempty e⟩
+  · rw [h1]
+    exact clearLoop_spec P hP (m.length + 1) m it h2 h3 (by omega) h4
+
+/-! ## `m_map_itr_set_data` -/
+
+theorem itrSet_spec (P : Params κ) (m : Map κ) (hwf : WF P m) (it : Itr) (v : Nat) :
+    WF P (itrSet m it v).1 ∧ SameFlags m (itrSet m it v).1 ∧ (itrSet m it v).1.size = m.size ∧
+    (itrSet m it v).1.length = m.length ∧
+    (∀ j, (slot (itrSet m it v).1.cells j).map (·.1) = (slot m.cells j).map (·.1)) ∧
+    ((it.removed = true ∨ v = 0) → itrSet m it v = (m, -22)) ∧
+    (it.removed = false → v ≠ 0 → ∀ k w, slot m.cells it.pos = some (k, w) →
+      (itrSet m it v).2 = 0 ∧ ∀ e, Has (itrSet m it v).1.cells e ↔ e = (k, v) ∨ (Has m.cells e ∧ e.1 ≠ k)) := by
+  unfold itrSet
+  by_cases hr : it.removed = true
+  · rw [if_pos hr]
+    exact ⟨hwf, SameFlags.refl m, rfl, rfl, fun _ => rfl, fun _ => rfl, fun h => by rw [hr] at h; cases h⟩
+  · rw [if_neg hr]
+    by_cases hv : v = 0
+    · rw [if_pos hv]
+      exact ⟨hwf, SameFlags.refl m, rfl, rfl, fun _ => rfl, fun _ => rfl, fun _ h => absurd hv h⟩
+    · rw [if_neg hv]
+      cases hs : slot m.cells it.pos with
+      | none =>
+        simp only
+        refine ⟨hwf, SameFlags.refl m, (by first | rfl | trivial), (by first | rfl | trivial), (by first | exact fun _ => rfl | simp), ?_, ?_⟩
+        · rintro (h | h)
+          · exact absurd h hr
+          · exact absurd h hv
+        · intro _ _ k w h; cases h
+      | some e =>
+        obtain ⟨k, w⟩ := e
+        simp only
+        have hn : 0 < m.cells.length := by
+          rcases Nat.eq_zero_or_pos m.cells.length with h0 | h0
+          · unfold slot at hs; simp [h0] at hs
+          · exact h0
+        refine ⟨?_, ⟨rfl, rfl, rfl, rfl⟩, by simp [Map.size], (by first | rfl | trivial), ?_, ?_, ?_⟩
+        · constructor
+          · simpa [Map.size] using hwf.size
+          · exact TWF_update P m.cells hwf.tbl it.pos k w v hs
+          · simp only [Map.size]; rw [occ_update m.cells it.pos _ _ hs]; exact hwf.len
+          · simpa [Map.size] using hwf.room
+        · intro j
+          simp only [Map.size]
+          rw [slot_set m.cells it.pos j _ hn]
+          split
+          · rename_i hij; rw [← slot_congr m.cells it.pos j hij, hs]; rfl
+          · rfl
+        · rintro (h | h)
+          · exact absurd h hr
+          · exact absurd h hv
+        · intro _ _ k' w' h
+          cases h
+          exact ⟨(by first | rfl | trivial), fun e => has_update P m.cells hwf.tbl it.pos k w v hs e⟩
+
 end Lm.Struct.Map
